@@ -564,7 +564,7 @@ namespace fixedmath
   constexpr fixed_t ceil( fixed_t value ) noexcept
     {
     fixed_internal result { (value.v + 0xffff) & ~((1<<16ll)-1) };
-    if( value.v < result ) 
+    if( value.v <= result ) 
       return as_fixed(result);
     return quiet_NaN_result();
     }
